@@ -2,6 +2,7 @@ package rules
 
 import (
 	"fmt"
+	"go/types"
 	"sort"
 	"strings"
 
@@ -20,6 +21,7 @@ func init() {
 			"commutative accumulation, min/max selection, deletes, slices that are sorted before any order-sensitive use, exits only on error - and anything else is reported as ORDER-SENSITIVE with the " +
 			"loop, the effect and the variable. The cone is also scanned for time/rand/multi-way select. Exceptions are tabled per (function, effect kind) with a reason and, where possible, a verifier. " +
 			"Go randomises map iteration, so any surviving order-sensitive effect makes two nodes compute different validator lists from equal inputs. " +
+			"shuffleNodes writes nothing into memory reachable from a map or list field of its argument (it works on copies). " +
 			"Not decided (value-level): that the hash-based shuffle itself is a function of its inputs' values only (it is pure code without maps; covered by the absence of nondeterminism sources).",
 		Run: runC13,
 	})
@@ -115,6 +117,7 @@ func shardingCone(c *core.Ctx, entries [][2]string) []*ssa.Function {
 }
 
 func runC13(c *core.Ctx) {
+	c13ShuffleWorksOnCopies(c)
 	cone := shardingCone(c, [][2]string{{"randHashShuffler", "UpdateNodeLists"}, {"indexHashedNodesCoordinator", "EpochStartPrepare"}})
 	n := checkMapOrder(c, "C13/map-order-independent", cone, c13Exceptions)
 	checkNondet(c, "C13/no-nondeterminism-source", cone, nil)
@@ -237,5 +240,65 @@ func checkSortComparators(c *core.Ctx, rule string, cone []*ssa.Function) {
 			c.Check(len(sc.Foreign) == 0, rule, name, sc.In.Pos(), "the comparator indexes only the slice being sorted",
 				fmt.Sprintf("the comparator indexes %v with its i/j parameters while another slice is being sorted: elements and keys go out of sync, the result depends on the input order", sc.Foreign))
 		}
+	}
+}
+
+// c13ShuffleWorksOnCopies: shuffleNodes computes the new lists on copies of the maps it is given;
+// nothing it does writes into a map or list of its argument. A helper applied to the argument's own
+// map instead of the copy (same type, one line apart) changes the caller's state and makes the
+// working copy - hence the result - depend on how the caller happened to build its maps (a shard
+// with nobody waiting present as an empty entry or absent).
+func c13ShuffleWorksOnCopies(c *core.Ctx) {
+	fn := anchorF(c, "sharding", "shuffleNodes")
+	if fn == nil || len(fn.Params) == 0 {
+		return
+	}
+	arg := ssa.Value(fn.Params[0])
+	var roots []ssa.Value
+	names := map[ssa.Value]string{}
+	core.Instrs(fn, func(in ssa.Instruction) {
+		v, ok := in.(ssa.Value)
+		if !ok {
+			return
+		}
+		base, f := core.FieldLoad(v)
+		if f == nil {
+			return
+		}
+		// the argument itself, or the cell it was spilled to
+		isArg := base == arg
+		if al, isAl := base.(*ssa.Alloc); isAl && al.Referrers() != nil {
+			for _, r := range *al.Referrers() {
+				if st, isSt := r.(*ssa.Store); isSt && st.Val == arg {
+					isArg = true
+				}
+			}
+		}
+		if !isArg {
+			return
+		}
+		switch f.Type().Underlying().(type) {
+		case *types.Map, *types.Slice:
+			roots = append(roots, v)
+			names[v] = f.Name()
+		}
+	})
+	if len(roots) < 3 {
+		c.Undecided("C13/shuffle-works-on-copies", "shuffleNodes", fn.Pos(), fmt.Sprintf("expected the map/list fields of the argument to be read, found %d", len(roots)))
+		return
+	}
+	ea := core.NewEffectAnalyzer()
+	ord := map[string]int{}
+	for _, r := range roots {
+		ord[names[r]]++
+		bad := ""
+		for _, e := range ea.From(fn, []ssa.Value{r}) {
+			if e.Write {
+				bad = e.What + " at " + c.P.Pos(e.In.Pos())
+			}
+		}
+		c.Check(bad == "", "C13/shuffle-works-on-copies", fmt.Sprintf("shuffleNodes/arg.%s#%d", names[r], ord[names[r]]), r.Pos(),
+			"nothing reachable from this field of the argument is written",
+			"shuffleNodes writes into its argument's "+names[r]+" ("+bad+"): the caller's map is changed and the working copy no longer has the shape the rest of the function assumes, so the outcome depends on how the caller built its maps")
 	}
 }
